@@ -565,6 +565,18 @@ def idle_other_bus_small_history(order=('A', 'B'), n=1):
                 main=main, actors={'w': [['sleep', 't_w'], ['idle', 'B']]}, horizon=6)
 
 
+def fw_saturated_double():
+    """A forwards everything to B twice (two wildcard forwards, both selected before either runs).  A's own handler, which runs first,
+    piles other work onto B up to a solver-chosen distance from B's admission limit: depending on n both deliveries are accepted, the
+    first is accepted and the second refused, or both are refused.  Whatever B accepted it processes; event_path lists B iff B
+    accepted the event."""
+    handlers = [['B', 'C', 'hC', [['sleep', '1/20'], ['ret', 'c']]], ['B', 'P', 'hPB', [['read_bus'], ['ret', 'b']]],
+                ['A', 'P', 'hPA', [['burst_swallow', 'B', 'C', 'n', 'C'], ['ret', 'a']]]]
+    main = [['root', 'A', 'P', 'P1'], ['idle', 'A'], ['idle', 'B'], ['idle', 'A'], ['obs_all', 'end']]
+    return dict(buses=['A', 'B'], ints={'n': [47, 51]}, reals={}, handlers=handlers, forwards=[['A', 'B'], ['A', 'B']],
+                main=main, max_history={'B': 50}, horizon=12, rejections_expected=True)
+
+
 def flood_idle():
     """a burst larger than the queue onto a bus with a small history limit (rejections swallowed), then wait_until_idle()."""
     handlers = [['A', 'C', 'hC', [['ret', 'c']]]]
